@@ -65,6 +65,7 @@ var verifDir = "/verif"
 var outDir = ""
 
 type violation struct {
+	Alts      []*NativeModel // further witnesses of the same site (other paths)
 	Job       *Job
 	Ob        Obligation
 	Site      string
@@ -222,12 +223,24 @@ func runCheck(prop, tier string) int {
 						fmt.Printf("  [debug] violated %s#%s: %s\n", job.Name, ob.ID, trunc(ob.Details+" "+ob.Cond, 300))
 					}
 					site := job.Name + "#" + ob.ID
+					injected := false
+					for _, ev := range p.Events {
+						if ev.Kind == "envfail" {
+							injected = true
+						}
+					}
 					if v, ok := seenSite[site]; ok {
 						v.Instances++
-						if v.Native == nil && ob.Model != nil {
-							// prefer an instance that carries a concrete witness
-							v.Ob = ob
-							v.Native = BuildNativeModel(job, p.Inputs, ob.Model)
+						if ob.Model != nil {
+							nm := BuildNativeModel(job, p.Inputs, ob.Model)
+							if v.Native == nil {
+								// prefer an instance that carries a concrete witness
+								v.Ob = ob
+								v.Native = nm
+							} else if !injected && len(v.Alts) < 4 {
+								// witnesses from paths without injected environment failures replay natively
+								v.Alts = append(v.Alts, nm)
+							}
 						}
 						continue
 					}
@@ -269,6 +282,17 @@ func runCheck(prop, tier string) int {
 			idx = append(idx, i)
 		}
 	}
+	var altIdx []int
+	for i, v := range cands {
+		if v.Job != nil && !v.Job.NoNative {
+			for _, a := range v.Alts {
+				cases = append(cases, NativeCase{Harness: v.Job.Harness, Model: a})
+				idx = append(idx, i)
+				altIdx = append(altIdx, len(cases)-1)
+			}
+		}
+	}
+	_ = altIdx
 	spurious := 0
 	var spuriousSites []string
 	if len(cases) > 0 {
@@ -279,18 +303,30 @@ func runCheck(prop, tier string) int {
 		} else {
 			for k, o := range outs {
 				v := cands[idx[k]]
+				if v.Confirmed {
+					continue
+				}
 				oc := o
-				v.Outcome = &oc
+				hit := false
 				if v.Ob.ID == "implicit/no-panic" {
-					v.Confirmed = o.Panic != ""
+					hit = o.Panic != ""
 				} else {
 					for _, f := range o.Failed {
 						if f == v.Ob.ID {
-							v.Confirmed = true
+							hit = true
 						}
 					}
 				}
-				if !v.Confirmed {
+				if hit || v.Outcome == nil {
+					v.Outcome = &oc
+					if hit {
+						v.Confirmed = true
+						v.Native = cases[k].Model
+					}
+				}
+			}
+			for _, v := range cands {
+				if v.Job != nil && v.Native != nil && !v.Job.NoNative && !v.Confirmed {
 					spurious++
 					spuriousSites = append(spuriousSites, v.Site)
 				}
@@ -320,6 +356,9 @@ func runCheck(prop, tier string) int {
 	knownHit := map[int]bool{}
 	for _, v := range cands {
 		if !v.Confirmed {
+			if v.Native != nil {
+				writeReplay(filepath.Join(verifDir, "replays", prop, "unreproduced_"+sanitize(v.Site)+".json"), prop, v)
+			}
 			continue
 		}
 		for ki := range known.Findings {
@@ -612,7 +651,17 @@ func (cr *checkRun) validatePredictions(seed int64) (int, []string) {
 			var ok []*PathResult
 			for _, p := range jr.Paths {
 				if p.End == "done" || p.End == "panic" {
-					ok = append(ok, p)
+					// paths with an injected environment failure (os.CreateTemp, os.Create ...) have
+					// no native counterpart in the replay harness: not comparable
+					injected := false
+					for _, ev := range p.Events {
+						if ev.Kind == "envfail" {
+							injected = true
+						}
+					}
+					if !injected {
+						ok = append(ok, p)
+					}
 				}
 			}
 			if len(ok) <= round {
